@@ -343,3 +343,22 @@ Section Model.
 
   Definition run_state (s : state) (ops : list op) : state := fold_left (fun s o => fst (step s o)) ops s.
 End Model.
+
+(** * The first commit after a reopen, with the 64-bit arithmetic of the code
+
+    Open seeds the oracle with [lsm.MaxVersion()] ([m]); [initCommitState] stores
+    [lastCleanupTs := m] and [nextTxnTs := m + 1] in a uint64; [newCommitTs] takes
+    [ts := nextTxnTs] and asserts [ts >= lastCleanupTs] ([utils.AssertTrue] ends the
+    process otherwise).  The plain (non-transactional) API writes at the sentinel
+    version 2^64-1.  (The rest of this file works with unbounded numbers; the wrap
+    matters only here.) *)
+Definition two64 : N := 18446744073709551616.
+Definition sentinel_version : N := two64 - 1.
+
+Inductive reopen_commit := RcCommits (ts : N) | RcFatal.
+
+Definition next_after_open (m : N) : N := if m =? 0 then 1 else (m + 1) mod two64.
+
+Definition commit_after_open (m : N) : reopen_commit :=
+  let ts := next_after_open m in
+  if m <=? ts then RcCommits ts else RcFatal.
